@@ -154,7 +154,11 @@ def simplifyRawE : Arg → ResE (Bool × Arg) Arg
         | _ => mergeE op l r
   | .neg v =>
     match v with
-    | .bin .sub l r => .ok (true, .bin .sub r l)
+    | .bin .sub l r =>
+      match neutralizeRawE (.bin .sub r l) with
+      | .ok (_, a) => .ok (true, a)
+      | .err e t => .err e t
+      | .panic => .panic
     | .const c => if c = i64Min then .err (.overflow .negate) (.neg v) else .ok (true, .const (-c))
     | .str _ | .addr _ | .seq _ => .err (.badType v.ty .neg) (.neg v)
     | _ => .ok (false, .neg v)
